@@ -310,6 +310,25 @@ func runC15(seed int64, n int, dir string, tier string) *Report {
 			}
 			checkExtraction(rep, g, nl, s, 4)
 		}
+		// several extractions on ONE list value, in a random order of stored edges: each must give what it
+		// gives on a fresh copy (an extraction that damages its source shows in the later ones)
+		if len(starts) > 0 {
+			shared := clone(nl)
+			g.R.Shuffle(len(shared.Edges), func(a, b int) { shared.Edges[a], shared.Edges[b] = shared.Edges[b], shared.Edges[a] })
+			pristine := clone(shared)
+			for k := 0; k < 5; k++ {
+				op := &graphops.Op{Kind: gen.Pick(g, []graphops.Kind{graphops.Descendants, graphops.Graph, graphops.Siblings, graphops.Descendants}), ID: gen.Pick(g, starts), Depth: 1 + g.Int(4)}
+				var got, want *sbom.NodeList
+				var o1, o2 int
+				callWithTimeout(5*time.Second, func() { got, o1, _ = op.Apply(shared) })
+				callWithTimeout(5*time.Second, func() { want, o2, _ = op.Apply(clone(pristine)) })
+				rep.OracleEvals++
+				if o1 != o2 || (o1 == graphops.OK && (!props.SameStrSet(props.NodeSet(got), props.NodeSet(want)) || !props.SameTripleSet(props.TripleSet(got), props.TripleSet(want)) || !props.SameStrSet(props.RootSet(got), props.RootSet(want)))) {
+					rep.Fail(Failure{What: "an extraction gave another result on a list that earlier extractions had been applied to than on a fresh copy of it", Detail: fmt.Sprintf("call %d: %s", k+1, op.Kind), Input: map[string]any{"list": graphops.PJ(pristine), "op": op.Describe(), "got": graphops.PJ(got), "on_a_fresh_copy": graphops.PJ(want)}})
+					break
+				}
+			}
+		}
 	}
 	// recorded witness of K8, replayed on every run
 	{
